@@ -46,6 +46,7 @@ class Ob:
     trace_vars: List[str] = field(default_factory=list)  # extra (ghost) variables whose last traced value feeds the replay
     stream_replay: str = ''       # name of a stream-level replay generator in lib/streamgen.py (runs the real lbzip2 binary)
     twin: str = ''                  # name of an explicit bounded obligation used to find a concrete input when this one fails
+    gi_flags: List[str] = field(default_factory=list)   # extra goto-instrument pass (e.g. --restrict-function-pointer) before cbmc, non-dfcc harnesses
 
     @property
     def dfcc(self):
@@ -158,6 +159,18 @@ def build_and_check(ob: Ob, sc: Scratch, want_trace=False) -> Result:
                 res.wall = time.time() - t0
                 return res
         gb = b_gb
+    if ob.gi_flags and not ob.dfcc:
+        g_gb = os.path.join(wd, 'g.gb')
+        gi = ['goto-instrument'] + ob.gi_flags
+        rc, out, _ = _run(gi + [gb, g_gb], 600, 16)
+        log.append('$ ' + ' '.join(gi) + '\n' + out[-3000:])
+        cmds.append(' '.join(gi) + ' a.gb g.gb')
+        if rc != 0:
+            res.reason = 'goto-instrument (extra pass) failed'
+            res.log = '\n'.join(log)
+            res.wall = time.time() - t0
+            return res
+        gb = g_gb
     checks = DEFAULT_CHECKS if ob.checks is None else ob.checks
     cb = ['cbmc', gb] + checks + ob.flags + SOLVER_FLAGS[ob.solver] + ['--drop-unused-functions', '--json-ui', '--verbosity', '6']
     if not any(f == '--object-bits' for f in ob.flags):
